@@ -265,6 +265,38 @@ def _explore(res, cell):
     # ---- 3. gradient = J^T direction, or refused ----------------------------------------------
     _check_gradient(res, raw, cell, model, gd, gr, dg, rg, pts, ref)
 
+    # ---- 3b. non-initial state: after get_matrix() was called on a linear model, forward and gradient are unchanged ------
+    if hasattr(model, "get_matrix"):
+        try:
+            model.get_matrix()
+            called = True
+        except Exception:  # noqa
+            called = False
+        if called:
+            res.state("after-get_matrix")
+            pname, p = pts[-1]
+            res.transitions += 1
+            try:
+                out = _flat(model.forward(p.copy()))
+                if out.shape != ref(p).shape or not close(out, ref(p), 1e-9):
+                    raw.add("forward-after-get_matrix", "values", "forward(p) changed after get_matrix() was called on the model", rep="par")
+            except Exception as e:  # noqa
+                raw.add("forward-after-get_matrix", "raises", "forward raised %r after get_matrix()" % (e,), rep="par")
+            Jm = refs.richardson_jac(ref, p, h=1e-3)
+            for j in range(m):
+                d = np.eye(m)[:, j].copy()
+                res.transitions += 1
+                try:
+                    g = _flat(model.gradient(d.copy(), p.copy()))
+                except Exception:  # noqa
+                    res.refused += 1
+                    continue
+                res.traces += 1
+                if g.size != n or not (close(g, Jm.T @ d, 1e-5) or close(g, refs.richardson_jac(ref, p, h=4e-4).T @ d, 1e-5)):
+                    raw.add("gradient-after-get_matrix", "values", "after get_matrix() the gradient %s is not J^T direction %s"
+                            % (g[:6], (Jm.T @ d)[:6]), wrep="par", drep="par")
+                    break
+
     # ---- 4. model(distribution) only renames -----------------------------------------------------
     _check_rename(res, raw, cell, model, pts, refs_at, n, m)
 
